@@ -23,9 +23,8 @@ func newSubscribeTransaction(client *Client, msgID uint16, callback MessageHandl
 				client.groupCtx, client.cfg.RetryDelay, client.cfg.RetryCount,
 				func(lastPkt interface{}) error {
 					tLog.Debug("Resend.")
-					dupPkt := lastPkt.(pkts.PacketWithDUP)
-					dupPkt.SetDUP(true)
-					return client.send(lastPkt.(pkts.Packet))
+					// Sets DUP.
+					return client.resend(lastPkt.(pkts.Packet))
 				},
 				func() {
 					tLog.Debug("Deleted.")
